@@ -124,14 +124,24 @@ func homeFor(opts Options) string {
 	return sharedHome
 }
 
+var newAppMu sync.Mutex
+
+// newApp constructs the application. The latest version is loaded explicitly (app.New with loadLatest=true calls
+// os.Exit(1) when loading fails, which would kill the harness instead of yielding a verdict); a load failure panics
+// with a recognisable message so that callers can judge it.
 func newApp(db dbm.DB, home string, upgrades int) *app.App {
+	newAppMu.Lock()
 	if upgrades > 0 && upgrades < len(fullUpgrades) {
 		app.Upgrades = fullUpgrades[:upgrades]
 	} else {
 		app.Upgrades = fullUpgrades
 	}
-	a := app.New(log.NewNopLogger(), db, nil, true, simtestutil.NewAppOptionsWithFlagHome(home), baseapp.SetChainID(ChainID))
+	a := app.New(log.NewNopLogger(), db, nil, false, simtestutil.NewAppOptionsWithFlagHome(home), baseapp.SetChainID(ChainID))
 	app.Upgrades = fullUpgrades
+	newAppMu.Unlock()
+	if err := a.LoadLatestVersion(); err != nil {
+		panic(fmt.Errorf("NODE CANNOT START: loading the latest version failed: %w", err))
+	}
 	return a
 }
 
